@@ -137,7 +137,8 @@ func (c *gengoCtx) pkgChanged(pkgPath string) bool {
 	if previous == nil || current == nil {
 		return true
 	}
-	return previous.Sum(pkgPath) != current.Sum(pkgPath)
+	sum := current.Sum(pkgPath)
+	return sum == "" || previous.Sum(pkgPath) != sum
 }
 
 func (c *gengoCtx) pkgExecute(pctx corecontext.Context, pkg string, generators ...Generator) (finalErr error) {
